@@ -2,6 +2,18 @@
 """Regenerates MANIFEST.json from the table below (kept here so the manifest is always valid JSON)."""
 import json, subprocess
 CHECKS = {
+ "C09": ("exploration", "runtime monitor: exhaustive operand-pair matrix with reference comparison + operator coherence laws",
+         "All ordered pairs of the ~85-value boundary universe (every kind, numeric widths incl. unsigned, typed/generic arrays, maps, structs, ordered maps, Drops, pointers), each also re-realised in 4 (quick) / 16 (thorough) PRNG Go representations, are pushed through ==, !=, <, >, <=, >=, contains, and/or in object and tag form and in both operand orders. Oracle: the reference value where the statement defines one, the coherence laws for all pairs, no operator fails; 1e5 / 2e6 PRNG and/or combinations against the model.",
+         "Values of pairs the statement leaves open (|int|>2^53 vs float, ordering of booleans/arrays/maps, distinct equal maps) are only checked through the laws.", "DESIGN.md 5/C09"),
+ "C15": ("exploration", "runtime monitor: array-filter laws + receiver re-render + Go-binding snapshot comparison",
+         "All arrays of length 0..4 over four 4-symbol alphabets x 6 Go representations ([]any with spare capacity, typed slice, fixed array, Drop of array by value and by pointer, ordered map) x every array filter, ranges as arrays, arrays of maps with present/absent/nil keys, and 1e5 / 2e6 PRNG arrays and filter chains are rendered by the real code. Each case prints the result element by element and the receiver again afterwards; the Go binding is compared with a fresh identical realisation.",
+         "Order among incomparable elements under sort and sort_natural beyond 'permutation' are not asserted.", "DESIGN.md 5/C15"),
+ "C16": ("exploration", "runtime monitor: per-filter laws computed on characters",
+         "All strings up to length 4 (quick) / 5 (thorough) over an 11-symbol alphabet with 2- and 4-byte characters and HTML/URL specials, plus 3e4 / 1e6 PRNG strings, through every string filter of the statement with PRNG-chosen integer (-3..12) and string arguments; oracles are the laws of the statement (concatenation, case mapping, whitespace stripping, substitution, split/join inverse, character counting for size/slice/truncate/truncatewords, escape/escape_once, url round trip, UTF-8 validity, non-string receivers).",
+         "Argument tuples are sampled per string, not enumerated; laws are as lenient as the statement (e.g. non-ASCII case mapping optional).", "DESIGN.md 5/C16"),
+ "C17": ("exploration", "runtime monitor: exact rational arithmetic (math/big) as reference",
+         "All ordered pairs of a ~150-value numeric universe (small ints, boundary magnitudes to 2^53, quarters, numeric and non-numeric strings, nil) x the nine numeric filters, in PRNG integer/float widths and as literals; chains of 2..5 filters and algebraic identities; expected values from exact rational arithmetic, errors for zero divisors and non-numeric strings.",
+         "Integer division and modulo accept both truncating and flooring conventions; an exact value spelled in exponent notation is accepted; nil operands and numeric-string arguments are not asserted.", "DESIGN.md 5/C17"),
  "C10": ("exploration", "runtime monitor: reference branch-selection model + poison branches + if/unless duality (metamorphic)",
          "Every plain universe value (canonical and in PRNG Go realisations) is used as the condition at every branch position of if/elsif chains of 1..6 branches and of unless, and every ordered universe pair as case subject x when value in five clause layouts; branches after the selected one carry conditions that fail when evaluated. 9e4 (quick) / 2e6 (thorough) PRNG conditions and programs are compared with the reference model and through the if/unless duality.",
          "Trusts ref (truthiness, ==) as a reading of the statement; case pairs whose == is not stated (two maps) are skipped.", "DESIGN.md 5/C10"),
